@@ -135,14 +135,6 @@ pub proof fn lemma_added_trans(a: Seq<Report>, b: Seq<Report>, c: Seq<Report>, x
 pub proof fn lemma_added_refl(a: Seq<Report>)
     ensures added(a, a, Seq::<Shadow>::empty())
 {}
-pub proof fn lemma_lookup_bind<V>(sc: Seq<Map<Seq<char>, V>>, n: Seq<char>, v: V, m: Seq<char>)
-    requires sc.len() > 0
-    ensures lookup(bind(sc, n, v), m) == (if m == n { Some(v) } else { lookup(sc, m) })
-{
-    let b = bind(sc, n, v);
-    assert(b.drop_last() =~= sc.drop_last());
-    assert(b.last() == sc.last().insert(n, v));
-}
 // looking a name up in the mapped stack is mapping the looked-up entry
 pub proof fn lemma_lookup_view(blocks: Seq<Map<Seq<char>, Declaration>>, n: Seq<char>)
     ensures
